@@ -264,6 +264,75 @@ fn check_message(ctx: &mut Ctx, m: &LMsg, kc: &KeyCase, rng: &mut Rng, exhaustiv
                 }
             }
         }
+        // compound faults ("any change"): the same mask applied to two bytes 4k apart (cancels in
+        // word-wise XOR/sum accumulators), to two adjacent bytes, swapped bytes, and whole-byte
+        // changes; within the MAC (exhaustively over the byte pairs for a few masks when
+        // exhaustive) and across MAC + prefix
+        {
+            let mac_lo = off + 4;
+            let mac_hi = off + 4 + maclen;
+            let mut pairs: Vec<(usize, usize, u8)> = Vec::new();
+            if exhaustive_faults {
+                for a in mac_lo..mac_hi {
+                    for b in (a + 1)..mac_hi {
+                        if (b - a) % 4 == 0 || b - a == 1 {
+                            pairs.push((a, b, 1u8 << ((a + b) % 8)));
+                        }
+                    }
+                }
+            }
+            for _ in 0..12 {
+                let a = mac_lo + rng.usize_below(*maclen);
+                let b = mac_lo + rng.usize_below(*maclen);
+                pairs.push((a.min(b), a.max(b), 1 + rng.below(255) as u8));
+                let c = if *off > 24 { 20 + rng.usize_below(off - 20) } else { rng.usize_below(2) };
+                pairs.push((c, a, 1 + rng.below(255) as u8));
+            }
+            for (a, b, mask) in pairs {
+                if a == b {
+                    continue;
+                }
+                let mut t = bytes.clone();
+                t[a] ^= mask;
+                t[b] ^= mask;
+                match accepted(&t, &kc.lib, *typ) {
+                    Err(p) => report_panic(ctx, "validate-tampered", &p, w(Some(&t))),
+                    Ok((d, v)) => {
+                        if d || v {
+                            ctx.violation(
+                                &format!("tampered-accepted:{}:compound:{}", tname(*typ), if d { "decoder" } else { "validate" }),
+                                format!("bytes {} and {} both xor {:#04x} (distance {}): still accepted (decoder={}, validate={})", a, b, mask, b - a, d, v),
+                                w(Some(&t)).set("fault", J::s(format!("bytes {} and {} xor {:#04x}", a, b, mask))),
+                            );
+                        }
+                        ctx.count("faults.compound-rejected");
+                    }
+                }
+            }
+            // two MAC bytes swapped (when they differ)
+            for _ in 0..4 {
+                let a = mac_lo + rng.usize_below(*maclen);
+                let b = mac_lo + rng.usize_below(*maclen);
+                if bytes[a] == bytes[b] {
+                    continue;
+                }
+                let mut t = bytes.clone();
+                t.swap(a, b);
+                match accepted(&t, &kc.lib, *typ) {
+                    Err(p) => report_panic(ctx, "validate-tampered", &p, w(Some(&t))),
+                    Ok((d, v)) => {
+                        if d || v {
+                            ctx.violation(
+                                &format!("tampered-accepted:{}:swap:{}", tname(*typ), if d { "decoder" } else { "validate" }),
+                                format!("MAC bytes {} and {} swapped: still accepted (decoder={}, validate={})", a, b, d, v),
+                                w(Some(&t)),
+                            );
+                        }
+                        ctx.count("faults.compound-rejected");
+                    }
+                }
+            }
+        }
         // outside the protected set: header length bytes and the attribute's own type/length: no panic only
         for pos in [2usize, 3, *off, off + 1, off + 2, off + 3] {
             let mut t = bytes.clone();
